@@ -6,6 +6,8 @@ package main
 
 import (
 	"fmt"
+	"sort"
+	"strings"
 	"time"
 
 	aftpb "github.com/openconfig/gribi/v1/proto/gribi_aft"
@@ -40,6 +42,9 @@ func getsnapCase(seed uint64, idx int) *CaseSpec {
 			return fail("getsnap: election failed")
 		}
 		ni := []string{"DEFAULT", "VRF1"}[r.IntN(2)]
+		if idx%2 == 1 {
+			return getsnapChain(t, h, cfg, r.IntN(4), ni, id, fail)
+		}
 		nNH := 8 + r.IntN(30)
 		after := 1 + r.IntN(3) // the reader stalls after this many responses
 		mkNH := func(opid, idx uint64, ty spb.AFTOperation_Operation) *spb.AFTOperation {
@@ -84,6 +89,113 @@ func getsnapCase(seed uint64, idx int) *CaseSpec {
 		return t, nil
 	}
 	return &CaseSpec{Name: name, N: 1, Run: run, Atomic: true, Inputs: func() []string { return []string{name} }}
+}
+
+// getsnapChain: the reader stalls in the first table while the primary re-points a whole chain
+// (prefix -> group -> next-hop) in one message, so that *every* table changes. The streamed
+// entries must be the contents of the instance at one moment: one of the states a twin server goes
+// through when it is given the same operations one by one (with a complete, undisturbed Get after
+// each). A Get that takes each table at a different moment returns a mixture none of them equals.
+func getsnapChain(t *Trace, h *SrvH, cfg *SrvCfg, variant int, ni string, id *spb.Uint128, fail func(string) (*Trace, error)) (*Trace, error) {
+	twin, err := NewSrvH(cfg)
+	if err != nil {
+		return t, err
+	}
+	nh := func(opid, idx uint64, ty spb.AFTOperation_Operation, ip string) *spb.AFTOperation {
+		return &spb.AFTOperation{Id: opid, NetworkInstance: ni, Op: ty, ElectionId: id,
+			Entry: &spb.AFTOperation_NextHop{NextHop: &aftpb.Afts_NextHopKey{Index: idx, NextHop: &aftpb.Afts_NextHop{IpAddress: sv(ip)}}}}
+	}
+	nhg := func(opid, gid, member uint64, ty spb.AFTOperation_Operation) *spb.AFTOperation {
+		return &spb.AFTOperation{Id: opid, NetworkInstance: ni, Op: ty, ElectionId: id,
+			Entry: &spb.AFTOperation_NextHopGroup{NextHopGroup: &aftpb.Afts_NextHopGroupKey{Id: gid, NextHopGroup: &aftpb.Afts_NextHopGroup{
+				NextHop: []*aftpb.Afts_NextHopGroup_NextHopKey{{Index: member, NextHop: &aftpb.Afts_NextHopGroup_NextHop{Weight: uv(1)}}}}}}}
+	}
+	// three entries in the first table the Get streams, so that the reader can be stalled inside it
+	top := func(opid, gid uint64, n int, ty spb.AFTOperation_Operation) *spb.AFTOperation {
+		op := &spb.AFTOperation{Id: opid, NetworkInstance: ni, Op: ty, ElectionId: id}
+		switch variant % 3 {
+		case 0:
+			op.Entry = &spb.AFTOperation_Ipv4{Ipv4: &aftpb.Afts_Ipv4EntryKey{Prefix: fmt.Sprintf("198.51.%d.0/24", 100+n), Ipv4Entry: &aftpb.Afts_Ipv4Entry{NextHopGroup: uv(gid)}}}
+		case 1:
+			op.Entry = &spb.AFTOperation_Ipv6{Ipv6: &aftpb.Afts_Ipv6EntryKey{Prefix: fmt.Sprintf("2001:db8:7%d::/48", n), Ipv6Entry: &aftpb.Afts_Ipv6Entry{NextHopGroup: uv(gid)}}}
+		default:
+			op.Entry = &spb.AFTOperation_Mpls{Mpls: &aftpb.Afts_LabelEntryKey{Label: &aftpb.Afts_LabelEntryKey_LabelUint64{LabelUint64: uint64(777 + n)}, LabelEntry: &aftpb.Afts_LabelEntry{NextHopGroup: uv(gid)}}}
+		}
+		return op
+	}
+	setup := []*spb.AFTOperation{nh(1, 1000, spb.AFTOperation_ADD, "10.9.0.1"), nhg(2, 1000, 1000, spb.AFTOperation_ADD),
+		top(3, 1000, 0, spb.AFTOperation_ADD), top(4, 1000, 1, spb.AFTOperation_ADD), top(5, 1000, 2, spb.AFTOperation_ADD)}
+	change := []*spb.AFTOperation{
+		nh(11, 1001, spb.AFTOperation_ADD, "10.9.0.2"), nhg(12, 1001, 1001, spb.AFTOperation_ADD),
+		top(13, 1001, 0, spb.AFTOperation_ADD), top(14, 1001, 1, spb.AFTOperation_ADD), top(15, 1001, 2, spb.AFTOperation_ADD),
+		nhg(16, 1000, 1000, spb.AFTOperation_DELETE), nh(17, 1000, spb.AFTOperation_DELETE, ""),
+	}
+	getAll := &spb.GetRequest{NetworkInstance: &spb.GetRequest_Name{Name: ni}, Aft: spb.AFTType_ALL}
+	canon := func(resps []*spb.GetResponse) string {
+		var l []string
+		for _, rsp := range resps {
+			for _, e := range rsp.GetEntry() {
+				l = append(l, encAFTEntry(e))
+			}
+		}
+		sort.Strings(l)
+		return strings.Join(l, " | ")
+	}
+	prepare := func(x *SrvH) bool {
+		if err := x.Connect(1); err != nil {
+			return false
+		}
+		if o := x.Send(1, &spb.ModifyRequest{Params: &spb.SessionParameters{Redundancy: spb.SessionParameters_SINGLE_PRIMARY, Persistence: spb.SessionParameters_PRESERVE}}); o.Ended || o.Hang {
+			return false
+		}
+		if o := x.Send(1, &spb.ModifyRequest{ElectionId: id}); o.Ended || o.Hang {
+			return false
+		}
+		o := x.Send(1, &spb.ModifyRequest{Operation: setup})
+		return !o.Ended && !o.Hang
+	}
+	// the session of h is connected already (negotiation and election done by the caller)
+	if o := h.Send(1, &spb.ModifyRequest{Operation: setup}); o.Ended || o.Hang {
+		return fail("getsnap: the chain could not be programmed")
+	}
+	if !prepare(twin) {
+		return fail("getsnap: the twin server could not be prepared")
+	}
+	states := map[string]bool{}
+	rs, gerr, gh := twin.Get(getAll, -1)
+	if gerr != nil || gh {
+		return fail("getsnap: Get on the twin failed")
+	}
+	states[canon(rs)] = true
+	for _, op := range change {
+		if o := twin.Send(1, &spb.ModifyRequest{Operation: []*spb.AFTOperation{op}}); o.Ended || o.Hang {
+			return fail("getsnap: the twin refused an operation of the change")
+		}
+		rs, gerr, gh := twin.Get(getAll, -1)
+		if gerr != nil || gh {
+			return fail("getsnap: Get on the twin failed")
+		}
+		states[canon(rs)] = true
+	}
+	stalled, resume := h.GetPaused(getAll, 1)
+	chDone := make(chan MsgOutcome, 1)
+	go func() { chDone <- h.Send(1, &spb.ModifyRequest{Operation: change}) }()
+	if stalled {
+		time.Sleep(30 * time.Millisecond)
+	}
+	resps, gerr2, ghang := resume()
+	oc := <-chDone
+	switch {
+	case ghang || oc.Hang:
+		return fail("getsnap: a Get or the operations overlapping it were not answered (hang)")
+	case gerr2 != nil || oc.Ended:
+		return fail(fmt.Sprintf("getsnap: unexpected error (%v / %v)", gerr2, oc.Err))
+	case !states[canon(resps)]:
+		return fail(fmt.Sprintf("getsnap: a Get(ALL) of %s that overlapped the re-pointing of a chain returned a mixture of its tables at different moments: not a state the table ever had (got: %s)", ni, canon(resps)))
+	}
+	t.Add("conc.result 1 %s 0", S("ok"))
+	t.Add("end")
+	return t, nil
 }
 
 func init() {
